@@ -136,7 +136,7 @@ def run(ctx):
     with ThreadPoolExecutor(max_workers=4) as ex:
         for out in ex.map(one, files):
             results.append(out)
-    hung = {f["case"]["trace"] for f in rec["failures"] if isinstance(f.get("case"), dict) and "trace" in f["case"]}
+    hung = set(rec["extra"].get("hung") or [])
     for path, lines, acc, hw, n, other, complete in results:
         if acc:
             accepted += 1
